@@ -314,4 +314,22 @@ PROPS = {
         "tags": {1: "cache after resynchronisation vs the model (monitored part of the database)"},
         "assumptions": ["monitors of one client watch disjoint tables", "the server answers a re-established monitor with the complete contents (the built-in server never knows a last transaction id)"],
     },
+    "C18": {
+        "level_text": ("Theorems (Props/C18.v, axiom-free): threads that acquire locks in increasing rank order and release what they hold never reach a state where every unfinished "
+                       "thread waits for a lock, and that invariant is preserved by every step; an acyclic acquisition graph has such a rank. The graph is read off the source on "
+                       "every run: a go/ast extractor walks every function of client, cache, server and in-memory database (both branches of an if, loop bodies, every case) and "
+                       "reports the locks held at each return after the defers ran and the (held, acquired) pairs, also through calls; the generated fact discipline_ok "
+                       "extracted_summaries = true (no path leaks a lock, the order is acyclic) is checked by coqc. Tied to the runtime by scenarios with deadline watchdogs: "
+                       "every API call failing in each way it can (not connected, unknown table, cancelled context, unknown monitor) followed by calls that must work, and a "
+                       "stress of concurrent List/Get/Where/Transact/Monitor/MonitorCancel/Echo/Disconnect with notifications and connection cuts, also run in a child process "
+                       "built with -race. Partial: data races, rows mixing two versions and blocking on channels are runtime behaviour the model cannot exhibit; they are "
+                       "explored (race detector, watchdogs, a writer keeping two columns equal), not proved; read locks are treated as exclusive."),
+        "level_note": ("Trusted: Coq kernel + vm_compute, std++; the lock extractor (structural path exploration, name-based resolution of mutex fields and callees); the Go race "
+                       "detector. waitForCacheConsistent is documented to return holding the cache read lock and is treated as an acquisition."),
+        "rule": ("2 failing-call scenarios (with and without reconnect), 2 (thorough 10) stress rounds of 1.2 s (3 s) in process and 2 (8) under the race detector: 2 readers, a "
+                 "transactor, a monitor set-up/cancel/echo loop, a foreign writer updating columns a and b together, cuts/disconnects every 40..120 ms; every call has an 8 s "
+                 "watchdog. Non-trivial: > 10 calls in the scenario."),
+        "tags": {1: "an API call did not return within its deadline", 2: "a reader saw a row with fields of two versions"},
+        "assumptions": ["context deadlines of at most 3 s; the watchdog is 8 s"],
+    },
 }
